@@ -95,6 +95,16 @@ fn main() {
                     "affine_mul" => { let r = p.into_affine().mul(fr_repr(&e.s("k"))); $outp(&r, &mut out); }
                     "in_subgroup" => { tag = format!("{}", p.into_affine().in_subgroup()); }
                     "precomp_256" => { let a = p.into_affine(); let mut pre = vec![$Aff::zero(); 256]; a.precomp_256(&mut pre); let r = a.mul_precomp_256(fr_repr(&e.s("k")), &pre); $outp(&r, &mut out); }
+                    "precomp_3" => { let a = p.into_affine(); let mut pre = vec![$Aff::zero(); 3]; a.precomp_3(&mut pre); let r = a.mul_precomp_3(fr_repr(&e.s("k")), &pre); $outp(&r, &mut out); }
+                    // wNAF contexts; k0 (optional, comma separated) are scalars used on the SAME context before k (reuse history)
+                    "wnaf_sb" => { let mut ctx = pairing::Wnaf::new(); for k0 in e.s("k0").split(',').filter(|x| !x.is_empty()) { let _ = ctx.scalar(fr_repr(k0)).base(p); }
+                                   let r = ctx.scalar(fr_repr(&e.s("k"))).base(p); $outp(&r, &mut out); }
+                    "wnaf_bs" => { let mut ctx = pairing::Wnaf::new(); let n: usize = e.s("n").parse().unwrap_or(1);
+                                   for k0 in e.s("k0").split(',').filter(|x| !x.is_empty()) { let _ = ctx.base(p, n).scalar(fr_repr(k0)); }
+                                   let r = ctx.base(p, n).scalar(fr_repr(&e.s("k"))); $outp(&r, &mut out); }
+                    "wnaf_staged" => { let mut ctx = pairing::Wnaf::new(); let n: usize = e.s("n").parse().unwrap_or(1); let mut st = ctx.base(p, n);
+                                   for k0 in e.s("k0").split(',').filter(|x| !x.is_empty()) { let _ = st.scalar(fr_repr(k0)); }
+                                   let r = st.scalar(fr_repr(&e.s("k"))); $outp(&r, &mut out); }
                     _ => { println!("{{\"error\":\"unknown op\"}}"); return; }
                 }
             }}; }
